@@ -738,6 +738,10 @@ pub struct HistoryCase {
     /// release order: positions into `versions` (a permutation); entries whose version started no
     /// background analysis are skipped by the server side
     pub release: Vec<usize>,
+    /// per version: its background analysis finishes before the server publishes the synchronous
+    /// result of that version (the other order is the default)
+    #[serde(default)]
+    pub early: Vec<bool>,
 }
 
 const POOL: &[(&str, &str)] = &[
@@ -772,10 +776,10 @@ impl Check for C29 {
         "C29"
     }
     fn rule(&self) -> String {
-        "case = history open v1, change v2 .. vn (n <= 5) over a pool of texts {valid LL, syntax error, LL(k) conflict found by the background analysis, LR conflict, valid LR, non-productive, left-recursive} plus a completion order (permutation) for the background analyses, which the harness owns through the cfg-guarded gate (an analysis blocks on its first access to the grammar until its version is released; the driver waits for it to finish before releasing the next); oracle: after all analyses have finished the last publishDiagnostics notification carries version n and the diagnostics a fresh server publishes last for text n alone. Evaluations = histories. Non-trivial = history in which an analysis of an older version is released after a newer version was published; distinct by history".into()
+        "case = history open v1, change v2 .. vn (n <= 5) over a pool of texts {valid LL, syntax error, LL(k) conflict found by the background analysis, LR conflict, valid LR, non-productive, left-recursive} plus a completion order (permutation) for the background analyses, which the harness owns through the cfg-guarded gate (an analysis blocks on its first access to the grammar until its version is released; the driver waits for it to finish before releasing the next) and, per version, whether its analysis finishes before or after the server publishes that version's synchronous result (second guarded hook at the top of notify_analysis_ok); oracle: after all analyses have finished the last publishDiagnostics notification carries version n and equals what a fresh server publishes last for text n alone when its analysis runs after the synchronous result. Evaluations = histories. Non-trivial = history in which an analysis of an older version is released after a newer version was published; distinct by history".into()
     }
     fn strategy(&self, _tier: Tier) -> BoxedStrategy<HistoryCase> {
-        (proptest::collection::vec(0usize..POOL.len(), 1..=5), tape(5..6))
+        (proptest::collection::vec(0usize..POOL.len(), 1..=5), tape(10..11))
             .prop_map(|(versions, tp)| {
                 let mut t = Tape { data: &tp, pos: 0 };
                 let mut idx: Vec<usize> = (0..versions.len()).collect();
@@ -783,7 +787,8 @@ impl Check for C29 {
                 while !idx.is_empty() {
                     release.push(idx.remove(t.next(idx.len())));
                 }
-                HistoryCase { versions, release }
+                let early = versions.iter().map(|_| t.next(4) == 3).collect();
+                HistoryCase { versions, release, early }
             })
             .boxed()
     }
@@ -805,17 +810,29 @@ impl Check for C29 {
                 }
             }};
         }
-        // reference: fresh server, only the final text
+        // reference: fresh server, only the final text, synchronous result first, then the
+        // background analysis (gated, so that the reference itself does not depend on scheduling)
         let final_text = POOL[c.versions[n - 1]].1;
         ask!(json!({"cmd": "new_server", "max_k": 2}));
+        ask!(json!({"cmd": "gating", "on": true}));
         ask!(json!({"cmd": "open", "uri": URI, "version": n, "text": final_text}));
-        ask!(json!({"cmd": "wait_idle"}));
+        ask!(json!({"cmd": "release", "version": n}));
+        ask!(json!({"cmd": "gating", "on": false}));
+        let idle0 = ask!(json!({"cmd": "wait_idle"}));
+        if idle0["finished"].as_u64() < idle0["spawned"].as_u64() {
+            return Verdict::Broken(format!("background analysis of the reference server did not finish within the driver's deadline: {idle0}"));
+        }
         let Some((_, want)) = last_publish(&ask!(json!({"cmd": "diagnostics"}))) else {
             return Verdict::Broken("fresh server publishes nothing".into());
         };
         // the history, gated
         ask!(json!({"cmd": "new_server", "max_k": 2}));
         ask!(json!({"cmd": "gating", "on": true}));
+        let early: Vec<usize> = (0..n).filter(|i| c.early.get(*i).copied().unwrap_or(false)).map(|i| i + 1).collect();
+        if !early.is_empty() {
+            ask!(json!({"cmd": "early", "versions": early}));
+            st.class("history_with_analysis_finishing_before_the_synchronous_result");
+        }
         for (i, v) in c.versions.iter().enumerate() {
             let cmd = if i == 0 { "open" } else { "change" };
             ask!(json!({"cmd": cmd, "uri": URI, "version": i + 1, "text": POOL[*v].1}));
@@ -825,7 +842,12 @@ impl Check for C29 {
             ask!(json!({"cmd": "release", "version": r + 1}));
         }
         ask!(json!({"cmd": "gating", "on": false}));
-        ask!(json!({"cmd": "wait_idle"}));
+        let idle = ask!(json!({"cmd": "wait_idle"}));
+        if idle["finished"].as_u64() < idle["spawned"].as_u64() {
+            // the driver's deadline passed with analyses still running (overloaded machine):
+            // the history is not complete, nothing can be concluded
+            return Verdict::Broken(format!("background analyses did not finish within the driver's deadline: {idle}"));
+        }
         st.eval(1);
         let Some((version, got)) = last_publish(&ask!(json!({"cmd": "diagnostics"}))) else {
             return Verdict::Fail("C29:nothing_published".into(), format!("history {c:?}"));
